@@ -753,6 +753,7 @@ type genReq struct {
 	Toolchain []string
 	Proxy     map[string][]string
 	Paddings  map[string][5]int
+	NoHook    bool
 }
 type padReq struct {
 	Versions []string
@@ -1020,30 +1021,40 @@ func padFields(p [5]int) []string {
 	return []string{I(int64(p[0])), I(int64(p[1])), I(int64(p[2])), I(int64(p[3])), I(int64(p[4]))}
 }
 
-func runChild(req request) response {
+var childDir, childBin string
+
+func buildChild() {
 	tmp, err := os.MkdirTemp("", "vh-chartcfg-")
 	if err != nil {
 		panic(err)
 	}
-	defer os.RemoveAll(tmp)
-	bin := filepath.Join(tmp, "configgen")
-	cmd := exec.Command("go", "build", "-tags", "verif", "-o", bin, "./internal/configgen")
+	childDir = tmp
+	childBin = filepath.Join(tmp, "configgen")
+	cmd := exec.Command("go", "build", "-tags", "verif", "-o", childBin, "./internal/configgen")
 	if o, err := cmd.CombinedOutput(); err != nil {
 		fmt.Fprintf(os.Stderr, "building internal/configgen with -tags verif failed: %v\n%s", err, o)
+		os.RemoveAll(tmp)
 		os.Exit(3)
 	}
+}
+
+// runChild runs ONE process of the real configgen package on the requests, in order.
+func runChild(req request, extraEnv ...string) response {
 	data, err := json.Marshal(req)
 	if err != nil {
 		panic(err)
 	}
-	reqf, respf := filepath.Join(tmp, "req.json"), filepath.Join(tmp, "resp.json")
+	reqf, respf := filepath.Join(childDir, "req.json"), filepath.Join(childDir, "resp.json")
+	os.Remove(respf)
 	if err := os.WriteFile(reqf, data, 0666); err != nil {
 		panic(err)
 	}
-	c := exec.Command(bin)
+	c := exec.Command(childBin)
 	c.Env = append(os.Environ(), "VERIF_HARNESS=configgen", "VERIF_REQ="+reqf, "VERIF_RESP="+respf)
+	c.Env = append(c.Env, extraEnv...)
 	if o, err := c.CombinedOutput(); err != nil {
 		fmt.Fprintf(os.Stderr, "configgen child failed: %v\n%s", err, o)
+		os.RemoveAll(childDir)
 		os.Exit(3)
 	}
 	rd, err := os.ReadFile(respf)
@@ -1056,9 +1067,154 @@ func runChild(req request) response {
 	}
 	if len(resp.Gen) != len(req.Gen) || len(resp.Pad) != len(req.Pad) {
 		fmt.Fprintln(os.Stderr, "configgen child answered a different number of requests")
+		os.RemoveAll(childDir)
 		os.Exit(3)
 	}
 	return resp
+}
+
+// ---- sessions: several generate() calls in ONE process through the real
+// listProxyVersions path.  A fake `go` first on PATH answers
+// `go list -m --versions <module>` from the session's table (the module
+// mirror: one fixed version list per module), so no test hook is involved.
+
+const fakeGo = `#!/bin/sh
+# fake go for the verification harness: only "go list -m --versions <module>"
+if [ "$1" != "list" ] || [ "$2" != "-m" ] || [ "$3" != "--versions" ]; then
+  echo "fake go: unsupported $*" >&2; exit 2
+fi
+while IFS= read -r line; do
+  if [ "${line%% *}" = "$4" ]; then echo "$line"; exit 0; fi
+done < "$VERIF_GOLIST"
+echo "go: module $4: not known to the fake mirror" >&2
+exit 1
+`
+
+type session struct {
+	table map[string][]string // module -> versions, incl. golang.org/toolchain
+	calls []genReq
+}
+
+var sharedModules = [][]string{
+	{"golang.org/x/vuln", "golang.org/x/vuln/cmd/govulncheck", "golang.org/x/vuln/cmd/vulnreport", "golang.org/x/vuln/cmd/other"},
+	{"golang.org/x/tools/gopls", "golang.org/x/tools/gopls", "golang.org/x/tools/gopls/cmd/helper"},
+	{"example.com/m", "example.com/m/cmd/x", "example.com/m/cmd/y", "cmdx/y"},
+}
+
+func sortedSubset(pool []string, p int) []string {
+	vs := subset(pool, p)
+	semver.Sort(vs) // the mirror lists versions in order
+	return vs
+}
+
+func genSession() session {
+	var s session
+	s.table = map[string][]string{}
+	// programs: toolchain programs and module programs, several of which share a module
+	type prog struct{ name, module string }
+	var progs []prog
+	nmod := 1 + rnd.Intn(2)
+	for i := 0; i < nmod; i++ {
+		g := sharedModules[(rnd.Intn(3)+i)%3]
+		if _, dup := s.table[g[0]]; dup {
+			continue
+		}
+		s.table[g[0]] = sortedSubset(semPool, 40+rnd.Intn(40))
+		k := 1 + rnd.Intn(len(g)-1)
+		if rnd.Chance(70) && k < 2 {
+			k = 2
+		}
+		for _, p := range g[1 : 1+k] {
+			progs = append(progs, prog{p, g[0]})
+		}
+	}
+	if rnd.Chance(40) {
+		progs = append(progs, prog{Pick(rnd, toolPrograms), ""})
+	}
+	var tc []string
+	for _, g := range subset(goVersionPool, 50) {
+		tc = append(tc, "v0.0.1-"+g+".linux-amd64")
+		if rnd.Bool() {
+			tc = append(tc, "v0.0.1-"+g+".darwin-arm64")
+		}
+	}
+	s.table["golang.org/toolchain"] = tc
+	mkRecords := func() []chartconfig.ChartConfig {
+		var rs []chartconfig.ChartConfig
+		order := rnd.Intn(len(progs))
+		for j := range progs {
+			p := progs[(j+order)%len(progs)] // program order varies between calls
+			nrec := 1 + rnd.Intn(2)
+			for i := 0; i < nrec; i++ {
+				r := chartconfig.ChartConfig{Title: "t", Issue: []string{"https://go.dev/issue/1"}, Program: p.name, Module: p.module,
+					Type: "partition", Counter: Pick(rnd, []string{"a/b", "c:{x,y}", "gopls/bug"}) + strconv.Itoa(len(rs))}
+				if rnd.Chance(30) {
+					r.Type, r.Depth = "stack", 1+rnd.Intn(8)
+				}
+				if strings.HasPrefix(p.name, "cmd/") {
+					r.Version = Pick(rnd, goMinPool)
+				} else {
+					r.Version = Pick(rnd, semMinPool) // programs of one module get different minimums
+				}
+				rs = append(rs, r)
+			}
+		}
+		return rs
+	}
+	mkPaddings := func() map[string][5]int {
+		m := map[string][5]int{}
+		for _, p := range progs {
+			if p.module != "" {
+				m[p.name] = [5]int{1 + rnd.Intn(6), rnd.Intn(2), rnd.Intn(3), rnd.Intn(3), rnd.Intn(3)}
+			}
+		}
+		return m
+	}
+	recs := mkRecords()
+	ncalls := 2 + rnd.Intn(2)
+	for c := 0; c < ncalls; c++ {
+		if c >= 2 || (c == 1 && rnd.Chance(30)) {
+			recs = mkRecords() // otherwise: as main(), the same records with other paddings
+		}
+		q := genReq{Records: recs, Toolchain: tc, Proxy: map[string][]string{}, Paddings: mkPaddings(), NoHook: true}
+		for m, vs := range s.table {
+			if m != "golang.org/toolchain" {
+				q.Proxy[m] = vs
+			}
+		}
+		s.calls = append(s.calls, q)
+	}
+	return s
+}
+
+func runSession(id int, s session) {
+	dir := filepath.Join(childDir, "fakebin")
+	os.MkdirAll(dir, 0777)
+	if err := os.WriteFile(filepath.Join(dir, "go"), []byte(fakeGo), 0777); err != nil {
+		panic(err)
+	}
+	mods := make([]string, 0, len(s.table))
+	for m := range s.table {
+		mods = append(mods, m)
+	}
+	sort.Strings(mods)
+	var b strings.Builder
+	for _, m := range mods {
+		b.WriteString(m)
+		for _, v := range s.table[m] {
+			b.WriteString(" " + v)
+		}
+		b.WriteString("\n")
+	}
+	tablef := filepath.Join(childDir, "golist.txt")
+	if err := os.WriteFile(tablef, []byte(b.String()), 0666); err != nil {
+		panic(err)
+	}
+	resp := runChild(request{Gen: s.calls}, "PATH="+dir+string(os.PathListSeparator)+os.Getenv("PATH"), "VERIF_GOLIST="+tablef)
+	for i := range s.calls {
+		out.Note(fmt.Sprintf("session-call-%d", i))
+		emitGenKind([]string{"sgen", I(int64(id)), I(int64(i))}, s.calls[i], resp.Gen[i])
+	}
 }
 
 func checkUTF8(q genReq) {
@@ -1071,8 +1227,10 @@ func checkUTF8(q genReq) {
 	}
 }
 
-func emitGen(q genReq, r genResp) {
-	f := []string{"gen", I(int64(len(q.Records)))}
+func emitGen(q genReq, r genResp) { emitGenKind([]string{"gen"}, q, r) }
+
+func emitGenKind(head []string, q genReq, r genResp) {
+	f := append(head, I(int64(len(q.Records))))
 	var strs []string
 	for _, rec := range q.Records {
 		f = append(f, recFields(rec)...)
@@ -1203,7 +1361,20 @@ func main() {
 			req.Pad = append(req.Pad, genPad())
 		}
 	}
+	buildChild()
+	defer os.RemoveAll(childDir)
+	nsess := 30 + n/400
+	if nsess > 400 {
+		nsess = 400
+	}
+	var sessions []session
+	for i := 0; i < nsess; i++ {
+		sessions = append(sessions, genSession())
+	}
 	resp := runChild(req)
+	for i, s := range sessions {
+		runSession(i, s)
+	}
 	for i := range req.Gen {
 		emitGen(req.Gen[i], resp.Gen[i])
 	}
